@@ -183,6 +183,16 @@ check("C17", "model_checking",
       "Trusted: the harness's extension implementations and expected evaluation counts, value projection, TLC. Programs are sampled.",
       "TLA+ protocol model checked by TLC + TLC trace validation of recorded handler/dispatch events and paired runs", "DESIGN.md section 4 C17")
 
+check("C07", "model_checking",
+      "spec/Budget.tla is the metered machine against an adversarial program (any instruction sequence: plain, dice batches, exploding pools round by round, calls): "
+      "TLC checks Accounting, FailClosed, BoundedWork, Monotone and Terminates, and that BoundedWork fails when rounds are not charged.  Adversarial program families "
+      "(unbounded loops and recursion, huge counts, exploding pools in every mode, doubling strings/containers, sources around every built-in capacity, small parse budgets) "
+      "run in child processes with time/memory ceilings under budgets 300 and 30000; hooks H1/H2 meter every dispatched instruction (with the counter at that moment) and "
+      "every die; TLC (Trace_Budget) checks for every run: termination, no resource exhaustion, no crash, work <= K*limit+C, work <= K*ops+C at every dispatch, "
+      "counter monotone, over-limit => error, and for capacity cases value = the full program's value or an error.",
+      "Trusted: the meters, the ceilings (12 s, 1.5 GB), the slack constants K=6, C=2000, the generator's expected values, TLC. Families are designed, not exhaustive.",
+      "TLA+ metered machine checked by TLC + TLC trace validation of metered real runs of adversarial programs", "DESIGN.md section 4 C07")
+
 NOT_YET = "check under construction in this build phase (planned in DESIGN.md section 4); not yet claimed"
 
 m = {
